@@ -31,10 +31,11 @@ number:f-edge, number:i-wide, number:B-f-wide, number:J-wide for what the case h
 Each of them must come back as the same number, in a line that is not flagged, and the written text must parse again.
 One in eight of these cases (number:f-overflow) instead takes f values / B:f elements that match the grammar but
 exceed the DOUBLE range (1e400, -1e999, 1.8e308, a 1 with 309 zeros).  Here the demand is weaker, because what a valid
-document is can be argued about: gfapy may refuse the document (gfapy.Error, at any level) -- but if it accepts it, it must
-write it back as above.  Failures of these cases carry the signature prefix `f-overflow/`: on the pinned tree
-`S\t1\t*\txx:f:1e400` is accepted at levels 0-2 and written as `S\t1\t*\tinf\t# INVALID; errors found in fields: xx`,
-which does not parse again (level 3 refuses it with a ValueError when it is read).
+document is can be argued about: gfapy may refuse the document (gfapy.Error, at any level; level 0 reads its fields
+late, so there the refusal may come when the value is first looked at or written) -- but what it writes for it must be
+as above.  Failures of these cases carry the signature prefix `f-overflow/`: the pinned tree accepted
+`S\t1\t*\txx:f:1e400` at levels 0-2 and wrote `S\t1\t*\tinf\t# INVALID; errors found in fields: xx`,
+which does not parse again (fixed in /repo bbed702: the value is refused with a ValueError where it is read).
 The other cases are the ones generated before.
 
 Oracle (real library only).  A valid document T (props/_docgen.py) is parsed through every entry point
@@ -356,6 +357,8 @@ def oracle(case):
                 try:
                     out = str(g)
                 except Exception as e:  # noqa
+                    if overflow and isinstance(e, gfapy.Error):
+                        continue       # refused when the value is first looked at (level 0 reads its fields late)
                     add("write-raises[%s]: %s" % (e.__class__.__name__, _first(e)), cfg)
                     continue
                 outs[entry] = out
